@@ -593,6 +593,7 @@ class WriteRecorder:
     def __init__(self):
         self.locs = set()
         self.patched = []
+        self.setters = []
 
     def shared_classes(self):
         import importlib
@@ -661,6 +662,40 @@ class WriteRecorder:
             except (TypeError, AttributeError):
                 pass
         self.patched = []
+        for mod, name, orig in reversed(self.setters):
+            setattr(mod, name, orig)
+        self.setters = []
+
+    # setters of interpreter-wide state: a call that changes one of these, even if it puts the old value back
+    # before it returns, shares that state with every other thread while it runs
+    PROCESS_SETTERS = [
+        ("sys", "setrecursionlimit"), ("sys", "setswitchinterval"), ("decimal", "setcontext"), ("locale", "setlocale"), ("os", "chdir"), ("os", "umask"), ("os", "putenv"),
+        ("warnings", "simplefilter"), ("warnings", "filterwarnings"), ("warnings", "resetwarnings"), ("logging", "disable"), ("gc", "disable"), ("gc", "enable"),
+        ("random", "seed"), ("time", "tzset"), ("socket", "setdefaulttimeout"),
+    ]
+
+    def install_process_setters(self):
+        import importlib
+
+        locs = self.locs
+
+        def wrap(mod, name, orig):
+            def recorded(*a, **kw):
+                f = sys._getframe(1)
+                if "/xsdata/" in f.f_code.co_filename:
+                    locs.add(short_loc(f.f_code, f.f_lineno))
+                return orig(*a, **kw)
+
+            return recorded
+
+        for modname, name in self.PROCESS_SETTERS:
+            try:
+                mod = importlib.import_module(modname)
+                orig = getattr(mod, name)
+            except Exception:
+                continue
+            setattr(mod, name, wrap(mod, name, orig))
+            self.setters.append((mod, name, orig))
 
 
 class StepCounter:
